@@ -88,3 +88,10 @@ func ByName(names ...string) []Generator {
 	}
 	return out
 }
+
+// Lethal reports whether the run opted in to inputs that are known to kill the application or the
+// process (only C18 does): c.S.M["lethal"] == true.
+func Lethal(c *Ctx) bool {
+	v, _ := c.S.M["lethal"].(bool)
+	return v
+}
